@@ -144,6 +144,15 @@ def burstLaw (maxGo : Nat) (maxPeak : Nat) (maxGoCnt maxTotal : Int) (badRep : I
   else if maxTotal > (maxGo : Int) then some s!"C11 totalGo={maxTotal}, maxGo={maxGo} (burst round {badRep})"
   else none
 
+/-- C10, submissions aimed at an idle-timer expiry: at rest after ShutdownNow every accepted task ran or was
+    handed back, exactly once (a task that merely stayed queued and was handed back is fine) -/
+def idleSubLaw (lost dup : Nat) (badIt : Int) : Option String :=
+  if lost > 0 then
+    some s!"C10 {lost} accepted task(s) were neither executed nor handed back by ShutdownNow (iteration {badIt})"
+  else if dup > 0 then
+    some s!"C10 {dup} accepted task(s) were executed / handed back more than once (iteration {badIt})"
+  else none
+
 /-- C12, hand-off scenario: the done channel was never observed closed while an accepted task had not
     finished (`early`), no accepted task started with the already cancelled pool context (`cstart`:
     received but not yet started counts as unfinished), and Shutdown completed in every round -/
